@@ -114,6 +114,7 @@ type sampler struct {
 	caps   map[int][]rune
 	alpha  []rune
 	budget int
+	maxOut int // emitted text is cut off here: nested counted loops around backreferences grow exponentially
 }
 
 func (s *sampler) flip(r rune, ic bool) rune {
@@ -126,7 +127,7 @@ func (s *sampler) flip(r rune, ic bool) rune {
 }
 
 func (s *sampler) emit(n *ast.Node, out []rune) []rune {
-	if n == nil || s.budget <= 0 {
+	if n == nil || s.budget <= 0 || (s.maxOut > 0 && len(out) >= s.maxOut) {
 		return out
 	}
 	s.budget--
@@ -172,6 +173,9 @@ func (s *sampler) emit(n *ast.Node, out []rune) []rune {
 		}
 	case ast.KBackref:
 		for _, r := range s.caps[n.Cap] {
+			if s.maxOut > 0 && len(out) >= s.maxOut {
+				break
+			}
 			out = append(out, s.flip(r, n.Eff.I))
 		}
 	case ast.KCond:
@@ -195,7 +199,7 @@ func (s *sampler) emit(n *ast.Node, out []rune) []rune {
 // Directed draws a string the pattern is likely to match (a random walk through the AST),
 // mutated and embedded in noise. alpha is the pattern-derived alphabet.
 func Directed(t *rapid.T, root *ast.Node, re2 bool, alpha []rune, caseSafe bool, maxLen int) []rune {
-	s := &sampler{t: t, re2: re2, caps: map[int][]rune{}, alpha: alpha, budget: 400}
+	s := &sampler{t: t, re2: re2, caps: map[int][]rune{}, alpha: alpha, budget: 400, maxOut: 4*maxLen + 64}
 	core := s.emit(root, nil)
 	nz := noise
 	if caseSafe {
